@@ -445,7 +445,7 @@ class Check:
     def mismatch(self, stream, case):
         self.mismatches.append({'stream': stream, 'case': case})
 
-    def judge(self, stream, cases, sample_cap=3):
+    def judge(self, stream, cases, sample_cap=3, canon=None):
         """cases: list of (request_line, impl_outcome, meta dict).  Sends the requests to the Lean driver and
         applies the verdict table: impl vs spec (property), impl vs model (correspondence)."""
         if not cases:
@@ -459,7 +459,7 @@ class Check:
             case = dict(meta, stream=stream, request=req, impl=got, model=model, spec=spec)
             if model == 'bad-op':
                 raise RuntimeError('driver rejected request %r' % req)
-            if spec != '-' and got != spec:
+            if spec != '-' and (canon(got) if canon else got) != spec:
                 self.violation(dict(case, why='real code differs from what the property demands'), cls)
             elif model != 'EUnmodelled' and got != model:
                 self.mismatch(stream, case)
